@@ -44,6 +44,20 @@ def job(j):
 
     def static_ways(w, ti, ty):
         """schema default, omitted, null literal - once per type"""
+        if ti == 1:
+            # an argument whose definition carries a directive that raises (a plain Python exception) for one value: that field fails,
+            # its resolver is not called, the exception object is never delivered as the value
+            for q, variables, bad in (("{ s gd(a: 13) }", None, True), ("{ s gd(a: 12) }", None, False), ("query ($x: Int) { s gd(a: $x) }", {"x": 13}, True),
+                                      ("query ($x: Int) { s gd(a: $x, b: 1) }", {"x": 14}, False), ("{ s z: gd(b: 2, a: 13) gd(a: 1) }", None, True)):
+                resp = w.run(q, variables)
+                st["n"] += 1
+                seen = [c for c in w.calls if c[0] == "gd"]
+                if bad:
+                    okc = [c[2] for c in seen] == ([{"a": 1, "b": 5}] if "z:" in q else [])
+                    ok = isinstance(resp, dict) and resp.get("errors") and (resp.get("data") or {}).get("s") == "s" and okc
+                else:
+                    ok = isinstance(resp, dict) and not resp.get("errors") and len(seen) == 1 and all(type(v) is int for v in seen[0][2].values())
+                flag({"type": ty, "ti": ti}, "argument-directive-raises", q, variables, [] if ok else ["guarded argument: resolver calls %r, response %r" % (seen, resp)], resp)
         f = "e%d" % ti
         nn = ty[0] == "NN"
         # schema default d<ti>(a: T = good)
